@@ -11,7 +11,7 @@ EXPLAIN = "explain"
 RULE = ("cache.rate_limit(limit 1-4, period 1-3 s, ttl none/1-4 s), cache.slice_rate_limit(limit 1-4, period 1-3 s) and cache.circuit_breaker("
         "errors_rate 34/50/67, period 1-3 s, ttl 1-3 s, min_calls 1-3) through the facade, 3-24 calls at strictly increasing instants on a 1/16 s "
         "grid with bursts and gaps that straddle window boundaries (exactly period / ttl apart included), scripted success / listed failure / "
-        "unlisted failure, default error and custom action, the default key or a key template with a placeholder (calls for a second host interleaved); plus concurrent bursts: 2-6 rounds of 1-4 callers started at one instant with every incr / expire / "
+        "unlisted failure (the breaker's function taking 0 - period+1 ticks before it returns or raises), default error and custom action, the default key or a key template with a placeholder (calls for a second host interleaved); plus concurrent bursts: 2-6 rounds of 1-4 callers started at one instant with every incr / expire / "
         "slice_incr of the limiter and the function body gated and scheduled (judged as the sequence of their counting commands). non-trivial: at least one call was rejected / the breaker opened, and a later call ran again")
 TRUSTED_BASE = ["Coq 8.16.1 kernel + vm_compute", "hand-written model coq/Model/Rate.v over the TTL-map spec, tied by this differential run",
                 "float timestamps exact on the 1/16 s grid; errors_rate comparison modelled in integers (fails*100 >= rate*total)"]
@@ -60,6 +60,15 @@ def gen_cases(rng, tier):
         cases.append({"kind": kind, "limit": rng.randint(1, 4), "period": period, "ttl": ttl, "action": rng.random() < 0.3,
                       "rounds": rounds, "schedule": [rng.randrange(8) for _ in range(40)]})
     return cases
+
+
+def _fdur(case, i):
+    """how long the i-th execution of the breaker's function takes (ticks) before it returns or raises: mostly nothing, sometimes
+    long enough for its start and its failure to lie on opposite sides of a window boundary"""
+    if case["kind"] != "breaker":
+        return 0
+    p = case["period"]
+    return [0, 0, 2, 0, p // 2, 0, p + 1, 0, p - 1][(case["advs"][i] + 3 * i) % 9]
 
 
 def _run_conc(case):
@@ -168,6 +177,8 @@ def run_impl(case):
                 return "other"
             st["ran"] += 1
             s = case["script"][st["i"]]
+            if _fdur(case, st["i"]):
+                await asyncio.sleep(_fdur(case, st["i"]) * TICK)      # a slow call: the failure is stamped when it fails, not when the call began
             if kind == "breaker":
                 if s == "A": raise ExcA()
                 if s == "B": raise ExcB()
@@ -216,7 +227,7 @@ def to_coq(case, obs):
         if kind == "rate":
             return C("CRate", Z(case["limit"]), Z(case["period"]), Z(case["ttl"] or case["period"]), h, ran)
         return C("CSlide", Z(case["limit"]), Z(case["period"]), h, ran)
-    h = [(Z(s[0]), C({"ok": "BOk", "A": "BFailListed", "B": "BFailOther"}[s[1]])) for s in obs["steps"]]
+    h = [((Z(s[0]), C({"ok": "BOk", "A": "BFailListed", "B": "BFailOther"}[s[1]])), Z(_fdur(case, i))) for i, s in enumerate(obs["steps"])]
     o = [(bool(s[2]) != bad, bool(s[4])) for s in obs["steps"]]
     return C("CBreaker", Z(case["rate"]), Z(case["period"]), Z(case["ttl"]), Z(case["min_calls"]), h, o)
 
